@@ -1,6 +1,7 @@
 //go:build verif
 
 //verif:target internal/pkg/preprocessor/zz_verif_c14_shim.go
+//verif:only zpause
 package preprocessor
 
 import (
@@ -16,9 +17,17 @@ import (
 func VerifC14SpawnWorker(in, out chan *models.Item, onStart func()) (cancel func(), done <-chan struct{}) {
 	ctx, c := context.WithCancel(context.Background())
 	p := &preprocessor{ctx: ctx, cancel: c, inputCh: in, outputCh: out}
+	// The method value is taken whatever the method's type is, and tested at run time: a change of
+	// the unexported worker's signature then fails THIS spawn (nil, nil) instead of the compilation
+	// of every harness binary that links the package.
+	work, ok := any(p.worker).(func(string))
+	if !ok {
+		c()
+		return nil, nil
+	}
 	p.wg.Add(1)
 	d := make(chan struct{})
-	go func() { onStart(); p.worker("c14") }()
+	go func() { onStart(); work("c14") }()
 	go func() { p.wg.Wait(); close(d) }()
 	return c, d
 }
